@@ -406,14 +406,16 @@ Definition elem_names (c : cls) : list name :=
 
 (* element names unique within a class, nothing bound to the node itself, flags consistent, and - where the
    schema type is known - the elements are written in the order of the schema's sequence *)
+Definition not_self (p : prop) : bool := match slot_of p with SSelf => false | _ => true end.
+
 Definition wf_class (c : cls) : bool :=
   no_clash (map slot_of (c_props c)) &&
   forallb not_xsi (c_props c) &&
+  forallb not_self (c_props c) &&
   forallb flags_ok (c_props c) &&
   match c_xsd c with [] => true | order => subseq (elem_names c) order end.
 
-Definition uses_self_node (c : cls) : bool :=
-  existsb (fun p => match slot_of p with SSelf => true | _ => false end) (c_props c).
+Definition uses_self_node (c : cls) : bool := negb (forallb not_self (c_props c)).
 
 (* ---------------------------------------------------------------- correspondence helpers (stream `props`) *)
 Fixpoint txt_eqb (a b : list Z) : bool :=
